@@ -819,6 +819,7 @@ func heavyRecipes() []func(r *rand.Rand, thorough bool) *input {
 			f(p)
 			in := p.input(name, r.Intn(64))
 			in.maxSteps = 3000000
+			in.noGuard = true
 			return in
 		}
 	}
